@@ -84,6 +84,10 @@ var replyKinds = map[string]bool{
 	"reply-to-a-reply-of-this":       false, // answers an answer to this post: belongs under that answer, not here
 	"reply-author-alias-to-foreign":  false, // the author is named by an address on the reply's host that redirects to an actor of another host
 	"reply-author-mirror-of-foreign": false, // … or that serves a document whose id is an actor of another host
+	// several authors, one of whom lives elsewhere (seed C09-K): error item, or the post without that author
+	"reply-coauthors-local-and-foreign":   false,
+	"reply-coauthors-foreign-and-local":   false,
+	"reply-coauthors-missing-and-foreign": false, // the local co-author cannot be loaded
 }
 
 // rapid302ref spells a reference in one of three ways: absolute, relative, or as an {id,type} stub
@@ -204,6 +208,15 @@ func (w *world) entryValue(c Case, i int, e Entry) any {
 		case "reply-foreign-author":
 			reply["inReplyTo"] = post
 			reply["attributedTo"] = w.h1("/other")
+		case "reply-coauthors-local-and-foreign":
+			reply["inReplyTo"] = post
+			reply["attributedTo"] = []any{rapid302ref(i, w.h0("/other"), w.prefix+"/other"), w.h1("/other")}
+		case "reply-coauthors-foreign-and-local":
+			reply["inReplyTo"] = post
+			reply["attributedTo"] = []any{rapid302ref(i, w.h1("/other"), w.h1("/other")), w.h0("/other")}
+		case "reply-coauthors-missing-and-foreign":
+			reply["inReplyTo"] = post
+			reply["attributedTo"] = []any{w.h0(fmt.Sprintf("/missing-author%d", i)), w.h1("/other")}
 		case "reply-author-alias-to-foreign":
 			reply["inReplyTo"] = post
 			reply["attributedTo"] = rapid302ref(i, w.h0("/alias-foreign"), w.prefix+"/alias-foreign")
@@ -398,12 +411,16 @@ func check(c Case) vrep.Result {
 			classes = append(classes, "may:relative-actor-without-base")
 			continue
 		}
-		if (e.Kind == "reply-same-host-author" || e.Kind == "reply-author-alias-to-foreign" || e.Kind == "reply-author-mirror-of-foreign") && e.Transport == "embedded-noid" {
+		coauthors := strings.HasPrefix(e.Kind, "reply-coauthors-")
+		if (e.Kind == "reply-same-host-author" || e.Kind == "reply-author-alias-to-foreign" || e.Kind == "reply-author-mirror-of-foreign" || coauthors) && e.Transport == "embedded-noid" {
 			// a post without an id has no host of its own; the statement does not say whether it may carry an author: either outcome
 			classes = append(classes, "may:id-less-post-with-author")
 			continue
 		}
-		viaOwnHost := e.Kind == "reply-author-alias-to-foreign" || e.Kind == "reply-author-mirror-of-foreign"
+		viaOwnHost := e.Kind == "reply-author-alias-to-foreign" || e.Kind == "reply-author-mirror-of-foreign" || coauthors
+		if coauthors {
+			classes = append(classes, "several-authors-one-foreign")
+		}
 		switch {
 		case viaOwnHost:
 			// error item, or the post without that author: decided by the author clause below
